@@ -121,7 +121,7 @@ def expected_binds(form, root):
                 a["odk:allow-mock-accuracy"] = ("lit", prm["allow-mock-accuracy"])
             if base == "range":
                 vals = [prm.get("start", "1"), prm.get("end", "10"), prm.get("step", "1")]
-                if any("." in x and float(x) for x in vals):
+                if any("." in x for x in vals):     # documented: any decimal parameter (0.0 is one) makes the range decimal
                     a["type"] = ("lit", "decimal")
             if base == "audit":
                 for k in ("track-changes", "track-changes-reasons", "identify-user", "location-priority", "location-min-interval", "location-max-age"):
